@@ -26,6 +26,7 @@ func checkC10(P *Prog, r *Result) {
 	P.checkTagPriority(r)
 	P.checkProviderTagTable(r)
 	P.checkIssuePathLast(r)
+	P.checkPathWriters(r)
 	P.checkSanitizeAgreement(r)
 	P.checkTagReachesNested(r, "C10/tag-reaches-nested")
 	_ = R
@@ -636,34 +637,39 @@ func (P *Prog) checkGetByFieldAgreement(r *Result, rule string) {
 			}
 			continue
 		}
-		// returns (recv.Get(key), key)
-		okRet := false
+		// every return is (recv.Get(key), key)
+		okRet := true
+		nRet := 0
 		eachInstr(fn, func(_ *ssa.BasicBlock, _ int, in ssa.Instruction) {
 			rt, ok := in.(*ssa.Return)
 			if !ok || len(rt.Results) != 2 {
 				return
 			}
+			nRet++
 			if cv(rt.Results[1]) != ssa.Value(keyCall) {
+				okRet = false
 				return
 			}
 			g, ok := cv(rt.Results[0]).(*ssa.Call)
 			if !ok {
+				okRet = false
 				return
 			}
 			gi := callOf(g)
-			if gi.static != nil && gi.static.Name() == "Get" && len(gi.args()) == 2 && cvi(gi.args()[0]) == recv && cv(gi.args()[1]) == ssa.Value(keyCall) {
-				okRet = true
+			if gi.static != nil && gi.static.Name() == "Get" && len(gi.args()) == 2 && cv(gi.args()[1]) == ssa.Value(keyCall) &&
+				(cvi(gi.args()[0]) == recv || sameNamed(namedOf(gi.static.Signature.Recv().Type()), namedOf(fn.Signature.Recv().Type()))) {
+				return
 			}
-			// value receivers: recv is loaded/copied
-			if gi.static != nil && gi.static.Name() == "Get" && len(gi.args()) == 2 && cv(gi.args()[1]) == ssa.Value(keyCall) && sameNamed(namedOf(gi.static.Signature.Recv().Type()), namedOf(fn.Signature.Recv().Type())) {
-				okRet = true
-			}
+			okRet = false
 		})
+		if nRet == 0 {
+			okRet = false
+		}
 		switch {
 		case !tagOK:
 			r.bad(rule, c, P.ipos(keyCall), "GetByField does not resolve the key with (field, fallback, the provider's own tag)")
 		case !okRet:
-			r.bad(rule, c, P.ipos(keyCall), "GetByField does not return (own Get(key), that same key)")
+			r.bad(rule, c, P.ipos(keyCall), "not every return of GetByField is (own Get(key), that same key): this provider resolves some fields differently from the others")
 		default:
 			r.ok(rule, c, P.ipos(keyCall), "key := GetKeyFromField(field, fallback, own tag); return Get(key), key")
 		}
@@ -852,4 +858,57 @@ func allocHolds(b, v ssa.Value) bool {
 	}
 	sts := storesTo(al)
 	return len(sts) == 1 && sts[0].Val == v
+}
+
+// checkPathWriters: an issue's Path is written only when the issue is built
+// (the issue constructors and the SetPath setter), never later on its way to
+// the collection.
+func (P *Prog) checkPathWriters(r *Result) {
+	R := P.roles
+	pathF := structField(R.ZogIssue, "Path")
+	allowed := map[string]bool{
+		"(*zog/internals.SchemaCtx).IssueFromTest": true, "(*zog/internals.SchemaCtx).IssueFromCoerce": true,
+		"zog/internals.NewZogIssue": true, "(*zog/internals.ZogIssue).SetPath": true,
+	}
+	n := 0
+	for _, fn := range P.Funcs {
+		eachInstr(fn, func(_ *ssa.BasicBlock, _ int, in ssa.Instruction) {
+			st, ok := in.(*ssa.Store)
+			if !ok {
+				return
+			}
+			if _, f := fieldVar(st.Addr); f == nil || !sameField(f, pathF) {
+				return
+			}
+			n++
+			c := fmt.Sprintf("%s#Path@%d", fname(fn), n)
+			if allowed[fname(fn)] || fn.Synthetic != "" {
+				r.ok("C10/path-writers", c, P.ipos(in), "path written while the issue is being built")
+			} else {
+				r.bad("C10/path-writers", c, P.ipos(in), "an issue's Path is rewritten outside the issue constructors: the key it is filed under no longer is the path of the node that produced it")
+			}
+		})
+	}
+	// SetPath callers: only SchemaCtx.Issue (with the node's own path) inside the module
+	for _, fn := range P.Funcs {
+		eachInstr(fn, func(_ *ssa.BasicBlock, _ int, in ssa.Instruction) {
+			ci := callOf(in)
+			if ci == nil || ci.static == nil || fname(ci.static) != "(*zog/internals.ZogIssue).SetPath" {
+				return
+			}
+			c := fname(fn) + "#SetPath"
+			okc := false
+			if call, ok := cv(ci.args()[1]).(*ssa.Call); ok {
+				if cc := callOf(call); cc.static != nil && cc.static.Name() == "String" && sameNamed(namedOf(cc.static.Signature.Recv().Type()), R.PathB) {
+					okc = true
+				}
+			}
+			if okc {
+				r.ok("C10/path-writers", c, P.ipos(in), "SetPath(<the node's own path>)")
+			} else {
+				r.bad("C10/path-writers", c, P.ipos(in), "library code sets an issue path that is not the current node's path")
+			}
+		})
+	}
+	r.floor("C10/path-writers", 4)
 }
